@@ -357,6 +357,7 @@ func main() {
 	// C15 / C17 (extract/compress.go, extract/gates.go, walker extract/mwskel.go): never exit either
 	writeIfChanged(filepath.Join(outDir, "Compress.lean"), genCompress(repoRoot))
 	writeIfChanged(filepath.Join(outDir, "Gates.lean"), genGates(repoRoot))
+	writeIfChanged(filepath.Join(outDir, "AppGuards.lean"), genAppGuards(repoRoot)) // C12 app layer (extract/appguards.go): never exits
 	writeIfChanged(filepath.Join(outDir, "Version.lean"), genVersion(repoRoot))       // C13 (extract/version.go): never exits
 	writeIfChanged(filepath.Join(outDir, "ObsApp.lean"), genObsApp(repoRoot))         // C08 app layer (extract/obsapp.go): never exits
 	writeIfChanged(filepath.Join(outDir, "Routing.lean"), genRouting(repoRoot))       // C01 / C11 (extract/routing.go): never exits
@@ -364,4 +365,5 @@ func main() {
 	writeIfChanged(filepath.Join(outDir, "Logging.lean"), genLogging(repoRoot))       // C20 (extract/logging.go): never exits
 	writeIfChanged(filepath.Join(outDir, "ErrFmt.lean"), genErrFmt(repoRoot))         // C06 (extract/errfmt.go, extract/flatfacts.go): never exits
 	writeIfChanged(filepath.Join(outDir, "Validation.lean"), genValidation(repoRoot)) // C05 (extract/validation.go): never exits
+	writeIfChanged(filepath.Join(outDir, "Proxies.lean"), genProxies(repoRoot))       // C18 (extract/proxies.go): never exits
 }
